@@ -105,12 +105,73 @@ def build_grid(md, ux):
 # ---------------------------------------------------------------------------------------------
 
 
+SPECIALS = ["one-nan", "several-nan", "row-nan", "all-nan", "pos-inf", "both-inf", "inf-and-nan", "neg-zero", "huge", "tiny", "mixed"]
+
+
+def dec_vals(data):
+    """JSON-safe data → numbers: "nan" / "inf" / "-inf" (and the framework's "NaN") are spelled as strings"""
+    return [float(x) if isinstance(x, str) else x for x in data]
+
+
+def special_values(rng, shape, dtype, pattern, big_ok=True):
+    """float data with special VALUES: NaN on one face / several / a whole leading row / everywhere, ±inf, −0.0, huge and
+    tiny magnitudes (no overflow, no subnormal products), mixed with ordinary finite values"""
+    n = shape[-1]
+    rows = int(np.prod(shape[:-1])) if len(shape) > 1 else 1
+    f32 = dtype == "float32"
+    vals = [[rng.uniform(-5, 5) for _ in range(n)] for _ in range(rows)]
+    hi = (lambda: rng.choice([-1, 1]) * 10.0 ** rng.uniform(30, 36)) if f32 else (lambda: rng.choice([-1, 1]) * 10.0 ** rng.uniform(250, 290))
+    lo = (lambda: rng.choice([-1, 1]) * 10.0 ** rng.uniform(-36, -30)) if f32 else (lambda: rng.choice([-1, 1]) * 10.0 ** rng.uniform(-290, -250))
+    r0 = rng.randrange(rows)
+
+    def put(v, k=1, row=None):
+        for _ in range(k):
+            vals[rng.randrange(rows) if row is None else row][rng.randrange(n)] = v
+
+    if pattern == "one-nan":
+        put("nan", 1, r0)
+    elif pattern == "several-nan":
+        put("nan", rng.randint(2, max(2, n)))
+    elif pattern == "row-nan":
+        vals[r0] = ["nan"] * n
+    elif pattern == "all-nan":
+        vals = [["nan"] * n for _ in range(rows)]
+    elif pattern == "pos-inf":
+        put(rng.choice(["inf", "-inf"]), 1, r0)
+    elif pattern == "both-inf":
+        vals[r0][0] = "inf"
+        vals[r0][n - 1] = "-inf" if n > 1 else "inf"
+    elif pattern == "inf-and-nan":
+        put("inf", 2)
+        put("nan", 1)
+    elif pattern == "neg-zero":
+        put(-0.0, max(1, n // 2))
+        if rng.random() < 0.5:
+            vals[r0] = [-0.0] * n
+    elif pattern == "huge":
+        put(hi(), max(1, n // 2))
+    elif pattern == "tiny":
+        vals = [[lo() for _ in range(n)] for _ in range(rows)]
+    else:  # mixed
+        put("nan", 1)
+        put("-inf", 1)
+        put(-0.0, 1)
+        put(hi(), 1)
+        put(lo(), 1)
+    flat = [x for r in vals for x in r]
+    if f32:
+        flat = [x if isinstance(x, str) else float(np.float32(x)) for x in flat]
+    return flat
+
+
 def make_values(rng, size, dtype, ones=False):
     """values are sent to Lean as the exact float64 they convert to, so any finite value is fair"""
     if ones:
         return [1] * size
     if dtype == "bool":
         return [int(rng.random() < 0.6) for _ in range(size)]
+    if dtype == "object" and rng.random() < 0.4:
+        return [rng.randint(-6, 6) for _ in range(size)]
     if dtype.startswith("int"):
         return [rng.randint(-6, 6) for _ in range(size)]
     mode = rng.choice(["dyadic", "full", "scaled"])
@@ -123,14 +184,19 @@ def make_values(rng, size, dtype, ones=False):
     return vals
 
 
-def make_call(rng, sizes, elem_dim, rule_order, ones=False, max_lead=3, lead_cap=3, via="dataarray", rank=None, length=None):
+def make_call(rng, sizes, elem_dim, rule_order, ones=False, max_lead=3, lead_cap=3, via="dataarray", rank=None, length=None,
+              special=None):
     """`elem_dim` names the last dimension ("default" = no dims given: xarray's dim_0, dim_1, …); `length` overrides its
     length (default: the grid count of that name)"""
     if rank is None:
         rank = rng.choice([0, 0, 1, 1, 2, 3][: 3 + max_lead])
     lead = [rng.randint(1, lead_cap) for _ in range(rank)]
     lead_names = rng.sample(["time", "lev", "ens"], rank)
-    dtype = rng.choice(DTYPES + ["float64", "float64"])
+    dtype = rng.choice(DTYPES + ["float64", "float64", "object"])
+    if special is not None:
+        dtype = rng.choice(["float64", "float64", "float32", "object"])
+    if via == "dask" and dtype == "object":
+        dtype = "float64"
     n = sizes[elem_dim] if length is None else length
     shape = lead + [n]
     dims = [f"dim_{i}" for i in range(rank + 1)] if elem_dim == "default" else lead_names + [elem_dim]
@@ -142,7 +208,9 @@ def make_call(rng, sizes, elem_dim, rule_order, ones=False, max_lead=3, lead_cap
         dtype=dtype,
         name=rng.choice(NAMES if via == "dataarray" else NAMES[1:]),
         via=via,
-        data=make_values(rng, int(np.prod(shape)), dtype, ones),
+        data=(make_values(rng, int(np.prod(shape)), dtype, ones) if special is None
+              else special_values(rng, shape, dtype, special)),
+        **({"special": special} if special else {}),
     )
 
 
@@ -188,11 +256,67 @@ def coincidence(sizes):
     return "+".join(c) or "distinct"
 
 
+def _dec_ext(toks, i):
+    """`n (tag num den)*` → list of floats / Fractions, next index"""
+    n = int(toks[i])
+    out = []
+    for k in range(n):
+        tag, num, den = int(toks[i + 1 + 3 * k]), int(toks[i + 2 + 3 * k]), int(toks[i + 3 + 3 * k])
+        out.append({1: float("nan"), 2: float("inf"), 3: float("-inf")}.get(tag, Fraction(num, den)))
+    return out, i + 1 + 3 * n
+
+
+def judge_ext(ctx, d, sizes, areas, call, as_float, obs, observed, inp, res, vals, elem, via):
+    """data and/or output hold NaN / ±inf: the Lean driver runs the same model over extended values (IEEE rules) and
+    evaluates SpecE on the implementation's output"""
+    ans = d.ask(
+        "C06.judgeext", sizes["n_face"], sizes["n_node"], sizes["n_edge"], GID, enc_floats(areas),
+        enc_arr(call["dims"], call["shape"], as_float, call["name"], GID), obs,
+    ).split()
+    k = int(ans[1])
+    bad = ans[2 : 2 + k]
+    rest = ans[2 + k :]  # model X self s vals … skip …
+    model, self_bad = rest[1], int(rest[3])
+    expect, j = _dec_ext(rest, 5)
+    skip, _ = _dec_ext(rest, j + 1)
+    show = lambda l: [x if isinstance(x, float) else float(x) for x in l[:64]]
+    model_out = dict(outcome=model, ieee_values=show(expect), nan_skipping_sum_would_give=show(skip))
+    ctx.hit("special-values:judged-by-Lean")
+    ctx.hit(f"special:{call.get('special', 'output-only')}")
+    if self_bad:
+        ctx.mismatch("C06/model-output-fails-its-own-spec(ext)", inp, observed, model_out)
+    if not bad and via != "dataset-integrate" and (model == "ok") != (res is not None):
+        ctx.mismatch("C06/decision-table", inp, observed, model_out)
+    for c in bad:
+        if c == "values":
+            got = vals.reshape(-1)
+            like_skip = len(skip) == got.size and all(
+                (isinstance(sv, float) and (np.isnan(sv) and np.isnan(gv) or sv == gv)) or
+                (not isinstance(sv, float) and np.isfinite(gv) and abs(float(sv) - gv) <= 1e-9 * max(1.0, abs(float(sv))))
+                for sv, gv in zip(skip, got))
+            n_nan_lost = sum(1 for ev, gv in zip(expect, got) if isinstance(ev, float) and np.isnan(ev) and not np.isnan(gv))
+            sig = "C06/values/special-values" + ("/nan-not-propagated" if n_nan_lost else "")
+            what = ("data with NaN/±inf: the result is not the IEEE value of Σ_f value·area (NaN term ⇒ NaN, inf−inf ⇒ NaN, "
+                    f"else ±inf or the exact sum); {n_nan_lost} element(s) that must be NaN are finite"
+                    + ("; the output equals a NaN-SKIPPING sum (missing faces treated as 0)" if like_skip else ""))
+        elif c == "meta":
+            sig, what = "C06/meta/special-values", "dims / shape / name / grid of the result are wrong (data with special values)"
+        elif c == "face_data_rejected":
+            sig, what = f"C06/face_data_rejected/special-values", "face-centred data with NaN/±inf was rejected"
+        else:
+            sig, what = f"C06/{c}/special-values", c
+        if via == "dataset-integrate":
+            sig = sig.replace("C06/", "C06/UxDataset.integrate/", 1)
+            what = "legacy UxDataset.integrate: " + what
+        ctx.fail(sig, what, inp, observed, model_out, [c])
+    return bad
+
+
 def run_call(ctx, ux, g, sizes, ref, call, inp):
     """returns the list of failed clause names of this call (after recording everything)"""
     d = ctx.driver
     elem = call["dims"][-1]
-    arr = np.array(call["data"], dtype=call["dtype"]).reshape(call["shape"])
+    arr = np.array(dec_vals(call["data"]), dtype=call["dtype"]).reshape(call["shape"])
     via = call.get("via", "dataarray")
     as_float = np.asarray(arr, dtype=np.float64).reshape(-1)
     areas = ref.get(call["rule"], call["order"])
@@ -211,6 +335,11 @@ def run_call(ctx, ux, g, sizes, ref, call, inp):
             ctx.hit("constructed-without-dims")
         else:
             subject = ux.UxDataArray(arr, dims=call["dims"], uxgrid=g, name=call["name"])
+    elif via == "dask":
+        import dask.array as da
+
+        chunks = tuple(max(1, (k + 1) // 2) for k in arr.shape)
+        subject = ux.UxDataArray(da.from_array(arr, chunks=chunks), dims=call["dims"], uxgrid=g, name=call["name"])
     else:
         # the documented user path `uxds["psi"].integrate()` / the legacy `uxds.integrate()`
         ds = ux.UxDataset({call["name"]: (call["dims"], arr)}, uxgrid=g)
@@ -238,12 +367,11 @@ def run_call(ctx, ux, g, sizes, ref, call, inp):
             same_grid=getattr(res, "uxgrid", None) is g, values=vals.reshape(-1).tolist()[:64],
         )
         ctx.hit(f"outcome:{elem}:returned")
-        if not np.all(np.isfinite(vals)):
-            ctx.fail(f"C06/values/non-finite/{elem}", "integrate returned non-finite values for finite data and areas",
-                     inp, observed, None, ["values"])
-            return ["values"]
         gid = GID if (isinstance(res, ux.UxDataArray) and getattr(res, "uxgrid", None) is g) else OTHER_GID
         obs = "1 " + enc_arr(res.dims, list(vals.shape), vals.reshape(-1), res.name, gid)
+    special = (not np.all(np.isfinite(as_float))) or (res is not None and not np.all(np.isfinite(vals)))
+    if special:
+        return judge_ext(ctx, d, sizes, areas, call, as_float, obs, observed, inp, res, vals if res is not None else None, elem, via)
     ans = d.ask(
         "C06.judge", sizes["n_face"], sizes["n_node"], sizes["n_edge"], GID, enc_floats(areas),
         enc_arr(call["dims"], call["shape"], as_float, call["name"], GID), obs,
@@ -354,6 +482,8 @@ def judge_history(ctx, case, tag="gen"):
         ctx.hit(f"rank={len(call['shape'])}")
         ctx.hit(f"dtype={call['dtype']}")
         ctx.hit(f"elem={elem}")
+        if call.get("special"):
+            ctx.hit(f"special-pattern:{call['special']}")
         n_last = call["shape"][-1]
         kinds = "=".join(k for k in ("n_face", "n_node", "n_edge") if sizes[k] == n_last) or "other"
         ctx.hit(f"name×length:{'dim_k' if elem.startswith('dim_') else elem}×{kinds}")
@@ -553,6 +683,13 @@ def history_for(ctx, md, sizes, pool, n_face_calls, big=False):
             combos = combos[: ctx.n(10, len(combos))]
         for nm, lk in combos:
             calls.append(make_call(rng, sizes, nm, next_rule(ctx, pool), max_lead=1, length=lens[lk]))
+    # special VALUES (NaN on one face / several / a row / all, ±inf, −0.0, huge, tiny, mixed) and dask-backed data
+    pats = list(SPECIALS)
+    rng.shuffle(pats)
+    for pat in pats[: (2 if big else ctx.n(4, len(pats)))]:
+        calls.append(make_call(rng, sizes, "n_face", next_rule(ctx, pool), max_lead=ml, lead_cap=cap, special=pat,
+                               via=rng.choice(["dataarray", "dataarray", "dask", "dataset-getitem"])))
+    calls.append(make_call(rng, sizes, "n_face", next_rule(ctx, pool), max_lead=ml, lead_cap=cap, via="dask"))
     # the documented path uxds[name].integrate() and the legacy UxDataset.integrate()
     calls.append(make_call(rng, sizes, "n_face", next_rule(ctx, pool), max_lead=ml, lead_cap=cap, via="dataset-getitem"))
     calls.append(make_call(rng, sizes, "n_face", next_rule(ctx, pool), via="dataset-integrate", rank=0))
